@@ -3,7 +3,7 @@ use std::sync::atomic::{AtomicBool, AtomicUsize, Ordering};
 use std::sync::Arc;
 use std::time::{Duration, Instant};
 
-use crate::cancel::{Cancel, CancelDisableGuard};
+use crate::cancel::{trigger_cancel_panic, Cancel, CancelDisableGuard};
 use crate::coroutine_impl::{
     current_cancel_data, run_coroutine, Coroutine, CoroutineImpl, EventSource,
 };
@@ -126,11 +126,17 @@ impl EventSource for EventSender<'_> {
     }
 
     fn yield_back(&self, _cancel: &'static Cancel) {
-        // ignore the cancel to let the bottom half get processed
-        // but still consume the `Canceled` result that `yield_with` passes in
-        // when it detects the cancel in user space, nobody else would take it
-        // and it would be seen by the next coroutine that reuses this stack
-        get_co_para();
+        // when we are resumed by `poll` the cancel is ignored to let the bottom half
+        // get processed.
+        // but when `yield_with` detects the cancel in user space (it was set after the
+        // check in `send`) it doesn't call `subscribe` and passes in a `Canceled` result:
+        // the event was not sent, no `poll` would ever consume it, so the bottom half
+        // must not run, finish the cancel here instead.
+        // the result must be consumed in any case, nobody else would take it and it
+        // would be seen by the next coroutine that reuses this stack
+        if get_co_para().is_some() && !std::thread::panicking() {
+            trigger_cancel_panic();
+        }
     }
 }
 
